@@ -196,6 +196,31 @@ fn c01(
             }
         }
     }
+    // (a') a frame that was there for a whole poll of the dispatch in which no call had its id is
+    // unsolicited and gone; a call that is given that id afterwards must not be completed by it.
+    // (A frame read in the very poll that transmits the request is matched by id like any other:
+    // tarpc cannot tell, and the property does not ask it to.)
+    for (ridx, rid, tok) in &f.future {
+        for (i, (_, o, _)) in &f.caller_out {
+            if o != &format!("Ok({tok})") {
+                continue;
+            }
+            let Some(widx) = f.wire.iter().chain(f.failed_sends.iter()).find(|(_, m)| matches!(m, Msg::Req { payload, .. } if *payload as usize == *i)).map(|x| x.0) else { continue };
+            // a dispatch poll that began after the frame arrived and ended (Pending) before the request was written
+            let mut started: Option<usize> = None;
+            let mut whole_poll = false;
+            for (k, r) in e.recs.iter().enumerate() {
+                match r {
+                    Rec::PollStart(Task::Dispatch(0)) if k > *ridx => started = Some(k),
+                    Rec::PollEnd(Task::Dispatch(0), false) if started.is_some() && k < widx => whole_poll = true,
+                    _ => {}
+                }
+            }
+            if whole_poll {
+                v(vs, "C01-a-stale-frame", cfg, format!("caller {i} (request id {rid}) was completed by an unsolicited frame that had arrived before its request existed and had been there for a whole poll of the idle dispatch"));
+            }
+        }
+    }
     // (d) stray replies change nothing: differential rerun with the stray replaced by a
     // spurious wake
     // Not applied once the clock has been moved in the main phase: at t >= D a reply and the
@@ -815,6 +840,22 @@ fn c10(cfg: &CCfg, e: &Exec, f: &Facts, vs: &mut Vec<Violation>, nt: &mut bool) 
             );
         }
     }
+    // the peer ended the read side and the dispatch has not even looked (an idle connection,
+    // nothing in flight): it must stop all the same
+    if let (Some(sidx), Some((q1idx, q))) = (&f.eof_sent, &f.q1) {
+        let not_before_q1 = |x: Option<usize>| x.map(|i| i > *q1idx).unwrap_or(true);
+        if sidx < q1idx
+            && q[1] != 0
+            && not_before_q1(f.eof_read)
+            && not_before_q1(f.dispatch_done.as_ref().map(|d| d.0))
+            && not_before_q1(f.dispatch_dropped)
+            && f.panics.is_empty()
+            && !f.spin
+        {
+            *nt = true;
+            v(vs, "C10-eof-not-prompt", cfg, "the peer closed the read side, nothing is woken, the clock has not moved, and the dispatch is still running (it has not looked at the read side since)".into());
+        }
+    }
     match (&f.eof_read, &f.dispatch_done, &f.dispatch_dropped) {
         (Some(eidx), done, None) => {
             *nt = true;
@@ -1253,6 +1294,18 @@ pub fn configs(prop: CProp, tier: Tier) -> Vec<CCfg> {
                 callers[0].answered = false;
                 callers[0].deadline_ms = 50;
                 out.push(base(callers, n, 1, Flavour::Coupled, 1, alpha | A_DRAIN));
+            }
+            // a connection that goes idle between two calls: an unsolicited frame that arrives then
+            // (possibly bearing the id the next call will be given) is gone when the next call is made
+            for handle in [Handle::Own, Handle::Shared] {
+                for (fl, third) in [(Flavour::Always, false), (Flavour::Coupled, false), (Flavour::Always, true)] {
+                    let mut callers: Vec<CallerCfg> = (0..if third { 3 } else { 2 }).map(|_| CallerCfg { handle, ..CallerCfg::simple(true) }).collect();
+                    callers[1].after = Some(0);
+                    if third {
+                        callers[2].after = Some(1);
+                    }
+                    out.push(base(callers, 2, 1, fl, 1, alpha));
+                }
             }
             // handle topologies: the original handle, a clone of it that has itself been cloned,
             // and that grandchild, each making a call (seeded change C01d: per-handle id blocks
